@@ -1,0 +1,95 @@
+//go:build verif
+
+// Contracts for the entry points of the FFT of this field (comment-only; installed by /verif/gcv gen-contracts): what
+// FFT and FFTInverse do around the recursive transform, for every option (coset or not, either decimation, with or
+// without precomputed tables, every task count: the options are the arbitrary result of an opaque call).
+// Layer "ring fr.Element". The recursive transforms difFFT / ditFFT are opaque calls that overwrite the vector with
+// arbitrary values (their kernels are under contract separately; the Cooley-Tukey induction is not); "mid" is the
+// vector as the transform left it. parallel.Execute(n, work) is executed as work(0, n) (option execute-as-range).
+//
+// FFTInverse: the transform that matches the decimation is called with the inverse generator (and the inverse
+// twiddles when they are precomputed), and afterwards every entry is scaled: by 1/n without the coset option; by
+// cosetTableInv[j] and 1/n with the coset option, decimation in time and precomputed tables (both the vector fast
+// path of the small fields and the parallel loop). FFT: with the coset option, decimation in frequency and
+// precomputed tables the transform receives the input scaled entry by entry by cosetTable[j], without the coset
+// option it receives the input itself; it is called with the generator of the domain (and its twiddles when they are
+// precomputed). The remaining coset paths (tables built on the fly, bit-reversed table access) are covered for
+// their frame only: nothing but the vector is written.
+
+package fft
+
+//@ func Domain.FFTInverse
+//@ layer ring fr.Element
+//@ option opaque-calls
+//@ option opaque-writes difFFT:0 ditFFT:0 BuildExpTable:1
+//@ option execute-as-range
+//@ option index-panics-allowed
+//@ option nomerge
+//@ requires decimation <= 1
+//@ requires domain.withPrecompute ==> len(domain.cosetTableInv) == len(a)
+//@ ghost mid = arrayof(a)
+//@ ghost coset = false
+//@ ghost transformed = false
+//@ cut after call fftOptions #1
+//@ + ghost coset = callresult.coset
+//@ cut before call difFFT #*
+//@ + invariant[inverse-transform] decimation == 1 && !transformed && callarg1 == domain.GeneratorInv && (domain.withPrecompute ==> same(callarg2, domain.twiddlesInv)) && forall(j, 0, len(a), callarg0[j] == old(a[j]))
+//@ cut after call difFFT #*
+//@ + ghost mid = arrayof(a)
+//@ + ghost transformed = true
+//@ cut before call ditFFT #*
+//@ + invariant[inverse-transform] decimation == 0 && !transformed && callarg1 == domain.GeneratorInv && (domain.withPrecompute ==> same(callarg2, domain.twiddlesInv)) && forall(j, 0, len(a), callarg0[j] == old(a[j]))
+//@ cut after call ditFFT #*
+//@ + ghost mid = arrayof(a)
+//@ + ghost transformed = true
+//@ inner FFTInverse$1
+//@ loop 0
+//@ + invariant[scaled-prefix] 0 <= i && i <= len(a) && forall(j, 0, i, a[j] == at(mid, j) * domain.CardinalityInv) && forall(j, i, len(a), a[j] == at(mid, j))
+//@ inner FFTInverse$2
+//@ loop 0
+//@ + invariant[scaled-prefix] 0 <= i && i <= len(a) && forall(j, 0, i, a[j] == at(mid, j) * domain.cosetTableInv[j] * domain.CardinalityInv) && forall(j, i, len(a), a[j] == at(mid, j))
+//@ inner FFTInverse$3
+//@ loop 0
+//@ + invariant[index] 0 <= i && i <= len(a)
+//@ inner FFTInverse$4
+//@ loop 0
+//@ + invariant[index] 0 <= i && i <= len(a)
+//@ ensures[transformed] transformed
+//@ ensures[plain] !coset ==> forall(j, 0, len(a), a[j] == at(mid, j) * domain.CardinalityInv)
+//@ ensures[coset-dit-table] coset && decimation == 0 && domain.withPrecompute ==> forall(j, 0, len(a), a[j] == at(mid, j) * domain.cosetTableInv[j] * domain.CardinalityInv)
+//@ modifies a
+//@ end
+
+//@ func Domain.FFT
+//@ layer ring fr.Element
+//@ option opaque-calls
+//@ option opaque-writes difFFT:0 ditFFT:0 BuildExpTable:1
+//@ option execute-as-range
+//@ option index-panics-allowed
+//@ option nomerge
+//@ requires decimation <= 1
+//@ requires domain.withPrecompute ==> len(domain.cosetTable) == len(a)
+//@ ghost coset = false
+//@ ghost transformed = false
+//@ cut after call fftOptions #1
+//@ + ghost coset = callresult.coset
+//@ cut before call difFFT #*
+//@ + invariant[forward-transform] decimation == 1 && !transformed && callarg1 == domain.Generator && (domain.withPrecompute ==> same(callarg2, domain.twiddles))
+//@ + invariant[input] !coset ==> forall(j, 0, len(a), callarg0[j] == old(a[j]))
+//@ + invariant[coset-dif-table] coset && domain.withPrecompute ==> forall(j, 0, len(a), callarg0[j] == old(a[j]) * domain.cosetTable[j])
+//@ cut after call difFFT #*
+//@ + ghost transformed = true
+//@ cut before call ditFFT #*
+//@ + invariant[forward-transform] decimation == 0 && !transformed && callarg1 == domain.Generator && (domain.withPrecompute ==> same(callarg2, domain.twiddles))
+//@ + invariant[input] !coset ==> forall(j, 0, len(a), callarg0[j] == old(a[j]))
+//@ cut after call ditFFT #*
+//@ + ghost transformed = true
+//@ inner FFT$1
+//@ loop 0
+//@ + invariant[index] 0 <= i && i <= len(a)
+//@ inner FFT$3
+//@ loop 0
+//@ + invariant[index] 0 <= i && i <= len(a)
+//@ ensures[transformed] transformed
+//@ modifies a
+//@ end
